@@ -2,6 +2,7 @@
 package lexer
 
 import (
+	"bytes"
 	"errors"
 	"fmt"
 	"io"
@@ -62,6 +63,20 @@ type Lexer struct {
 // New creates a new lexical analyzer for the EBNF language.
 // EBNF (Extended Backus-Naur Form) is used to define context-free grammars and their corresponding languages.
 func New(filename string, src io.Reader) (*Lexer, error) {
+	// The input buffer signals the end of input together with the last byte and keeps signalling it after that
+	// byte is retracted, so a look-ahead byte at the very end of the input would never be delivered again.
+	// A line terminator is appended to the source: it cannot be part of a token and is the only byte ever lost.
+	data, err := io.ReadAll(src)
+	if err != nil {
+		return nil, err
+	}
+
+	if len(data) > 0 {
+		src = bytes.NewReader(append(data, '\n'))
+	} else {
+		src = bytes.NewReader(data)
+	}
+
 	in, err := input.New(filename, src, bufferSize)
 	if err != nil {
 		return nil, err
